@@ -6,8 +6,7 @@
 (* Record = FALSE: the model TLC checks exhaustively (closed-form          *)
 (* statements of HubContract plus the action properties below).            *)
 (* Record = TRUE: the history variable makes every operation sequence a    *)
-(* state; sequences are printed as behaviours (BFS to Depth, transition    *)
-(* tour under TourView, or -simulate).                                     *)
+(* state; sequences are printed as behaviours (BFS to Depth or -simulate). *)
 (*                                                                         *)
 (* Operations: dispatch(mailbox, fresh id), delete(a stored message, or an *)
 (* id that was never stored), join(next free slot, v1|v2 with or without   *)
@@ -29,10 +28,11 @@ CONSTANTS Cmds,        \* subset of {"dispatch","delete","delunknown","join","jo
           MaxId,       \* number of dispatches
           MaxHeld,     \* operations queued behind a held one
           Drops,       \* TRUE: a broadcast may drop listeners whose buffer is full (model check with a small Buf)
+          Casts,       \* names of the listener sets that are attached before the behaviour starts (see CastOf)
           Depth, Record
 
-VARIABLES hist, nextId, held, nheld, act, who, n, prev
-gvars == <<hlen, recent, lst, due, seen, broken, log, jn, hist, nextId, held, nheld, act, who, n, prev>>
+VARIABLES hist, nextId, held, nheld, act, who, n
+gvars == <<hlen, recent, lst, due, seen, broken, log, jn, hist, nextId, held, nheld, act, who, n>>
 
 Has(c) == c \in Cmds
 Rec(x, slot) == /\ hist' = IF Record THEN Append(hist, x) ELSE hist
@@ -40,8 +40,30 @@ Rec(x, slot) == /\ hist' = IF Record THEN Append(hist, x) ELSE hist
                 /\ n' = IF Record THEN n + 1 ELSE 0
 Same(v) == v' = v
 
-GInit == /\ \E k \in Ns : HInit(k)
-         /\ hist = <<>> /\ nextId = 1 /\ held = 0 /\ nheld = 0 /\ act = "init" /\ who = 0 /\ n = 0 /\ prev = <<>>
+(* listeners attached before anything is dispatched (so that the depth is spent on what happens to them) *)
+L(kind, filter) == [kind |-> kind, filter |-> filter]
+CastOf(c) == CASE c = "none"     -> <<>>
+               [] c = "v2"       -> <<L("v2", "")>>
+               [] c = "v1"       -> <<L("v1", "")>>
+               [] c = "v2+m"     -> <<L("v2", ""), L("mock", "")>>
+               [] c = "v1+m"     -> <<L("v1", ""), L("mock", "")>>
+               [] c = "v2a+m"    -> <<L("v2", "a"), L("mock", "")>>
+               [] c = "v2+v2"    -> <<L("v2", ""), L("v2", "")>>
+               [] c = "v1a+v2+m" -> <<L("v1", "a"), L("v2", ""), L("mock", "")>>
+               [] c = "v2+v1+m"  -> <<L("v2", ""), L("v1", ""), L("mock", "")>>
+               [] c = "v2a+v2+m" -> <<L("v2", "a"), L("v2", ""), L("mock", "")>>
+               [] c = "m+m+v2"   -> <<L("mock", ""), L("mock", ""), L("v2", "")>>
+JoinRec(cast, j) == [c |-> "join", slot |-> j, kind |-> cast[j].kind, filter |-> cast[j].filter, broken |-> FALSE, armed |-> FALSE]
+GInit == /\ \E k \in Ns, cn \in Casts :
+              LET cast == CastOf(cn) IN
+              /\ hlen = k /\ recent = <<>> /\ log = <<>>
+              /\ lst = [i \in Slots |-> IF i \in DOMAIN cast THEN [kind |-> cast[i].kind, filter |-> cast[i].filter, st |-> "on"] ELSE FreeSlot]
+              /\ due = [i \in Slots |-> <<>>]
+              /\ seen = [i \in Slots |-> 0]
+              /\ broken = [i \in Slots |-> FALSE]
+              /\ jn = [i \in Slots |-> NoJoin]
+              /\ hist = IF Record THEN [j \in DOMAIN cast |-> JoinRec(cast, j)] ELSE <<>>
+         /\ nextId = 1 /\ held = 0 /\ nheld = 0 /\ act = "init" /\ who = 0 /\ n = 0
 
 FreeSlots == {i \in Slots : lst[i].st = "free"}
 NextSlot  == CHOOSE i \in FreeSlots : \A j \in FreeSlots : i <= j
@@ -95,7 +117,6 @@ GStep ==
 GNext == /\ (Record => n < Depth)
          /\ GStep
          /\ nheld' = IF held' = 0 THEN 0 ELSE IF held = 0 THEN 0 ELSE nheld + 1
-         /\ prev' = IF Record THEN <<hlen, recent, lst, due, seen, broken, held, nheld>> ELSE <<>>
 
 GSpec == GInit /\ [][GNext]_gvars
 
@@ -107,11 +128,6 @@ SufMbs == CHOOSE s \in [1..Cardinality(Mailbox) -> Mailbox] : \A a, b \in DOMAIN
 Suffix == (IF held # 0 THEN <<[c |-> "release"]>> ELSE <<>>)
           \o [j \in DOMAIN SufMbs |-> [c |-> "dispatch", mb |-> SufMbs[j], id |-> nextId + j - 1, gate |-> 0]]
           \o <<[c |-> "delete", mb |-> SufMbs[1], id |-> nextId, gate |-> 0]>>
-(* Transition tour: under TourView two states are the same when they were    *)
-(* reached by the same operation from the same contract state: every edge of *)
-(* the bounded state graph is walked once.                                   *)
-TourView == <<prev, IF hist = <<>> THEN <<>> ELSE hist[Len(hist)]>>
-EmitTour == n = 0 \/ PrintT(<<"BEHAVIOUR", ToJson([n |-> hlen, steps |-> hist \o Suffix])>>)
 Emit == ~Record \/ n # Depth \/ PrintT(<<"BEHAVIOUR", ToJson([n |-> hlen, steps |-> hist \o Suffix])>>)
 
 ----------------------------------------------------------------------------
